@@ -3,8 +3,8 @@ import sys, os, json, time
 sys.path.insert(0, os.path.dirname(os.path.dirname(os.path.abspath(__file__))))
 from concurrent.futures import ProcessPoolExecutor
 from nv import REPO_SRC
-from nv.selftest import VARIANTS as _V, _eval, seeded_variants
-VARIANTS = _V + seeded_variants()
+from nv.selftest import VARIANTS as _V, _eval, seeded_variants, refactor_variants
+VARIANTS = _V + seeded_variants() + refactor_variants()
 from nv.cli import run_property
 
 def base(prop):
@@ -21,7 +21,7 @@ if __name__ == "__main__":
         res = list(ex.map(_eval, jobs))
     bad = 0
     for (p, v, _, _), r in zip(jobs, res):
-        good = r["status"].startswith("detected") or r["status"] == "silent"
+        good = r["status"].startswith("detected") or r["status"] == "silent" or (v.get("optional") and r["status"] == "skipped")
         if not good:
             bad += 1
         print(f"{'ok ' if good else 'BAD'} {p} {v['id']:28s} {r['status']:24s} {r.get('wall', 0):5}s {str(r.get('how', r.get('new', r.get('why', ''))))[:230]}")
